@@ -539,12 +539,10 @@ func processorScenario(kind string, n int, c int) *explore.Scenario {
 				st := "acked"
 				switch {
 				case e.kind == "A-malformed":
-					st = "any" // the statement does not fix the settlement of malformed payloads
-					for _, h := range hs {
-						if h[len(h)-1:] != "A" {
-							continue
-						}
-					}
+					// the name says "A" but no A can be rebuilt from the payload: no handler can be given "a value
+					// equal to the one sent", so the message was not handled and must not be acknowledged (when a
+					// handler for A is registered here; otherwise it is a message of another type, see below)
+					st = "nacked"
 				case matched && failed:
 					st = "nacked"
 					if kind == "command" && flag {
